@@ -366,7 +366,7 @@ theorem trace_ops (m : Mem) (ops : List Op) : ∀ x ∈ trace m ops, x.1 ∈ ops
 
 /-- **C08 (inactive for ever).**  A frame that the acknowledged operations have made inactive (abstract
     state = committed table + pending records) is inactive in the committed table after every later
-    history that ends in a durable operation (commit, drop+open, crash+open, skip-index commit, doctor):
+    history that ends in a durable operation (commit, drop+open, crash+open, skip-index commit, vacuum, doctor):
     no later operation — update, delete, vacuum, doctor, reopen — brings it back. -/
 theorem C08_inactive_forever (m : Mem) (hi : Inv m) (i : Nat) (f : SFrame) (h : (abs m)[i]? = some f)
     (hf : f.status ≠ .active) (more : List Op) (hnc : ∀ op ∈ more, op ≠ Op.create) (last : Op) (hd : last.durable = true) :
@@ -459,21 +459,23 @@ theorem C08_update_committed (m : Mem) (hi : Inv m) (id : Nat) (u : UpdArgs) (t 
   obtain ⟨h1, h2, _⟩ := update_sim m id u t hi
   show (step (m.update id u t).1 last).1.frames.map view = _
   rw [durable_frames _ last h1 hd, core_sim _ last h1, h2 hack]
+  -- a durable operation (commit, drop+open, crash+open, skip-index commit, vacuum, doctor) leaves the
+  -- reference as it is
   cases last with
   | create => exact absurd rfl hlast
-  | commit ft => simp [specStep]
-  | reopen a b => simp [specStep]
-  | crash ft => simp [specStep]
-  | commitSkipIndexes => simp [specStep]
-  | doctor v rt rl rv a b c d => simp [specStep]
   | put a t => cases hd
   | update id u t => cases hd
   | delete id t => cases hd
-  | beginBatch d ws => cases hd
-  | endBatch => cases hd
-  | finalizeIndexes ft => cases hd
-  | vacuum a b => cases hd
-  | ticket s c b f => cases hd
+  | commit ft => simp [specStep]
+  | reopen a b => simp [specStep]
+  | crash ft => simp [specStep]
+  | beginBatch d ws => first | (simp [specStep]; done) | cases hd
+  | endBatch => first | (simp [specStep]; done) | cases hd
+  | commitSkipIndexes => first | (simp [specStep]; done) | cases hd
+  | finalizeIndexes ft => first | (simp [specStep]; done) | cases hd
+  | vacuum a b => first | (simp [specStep]; done) | cases hd
+  | doctor v rt rl rv a b c d => first | (simp [specStep]; done) | cases hd
+  | ticket s c b f => first | (simp [specStep]; done) | cases hd
 
 /-- an acknowledged update names a committed frame, which the abstract state knows with the same
     identity fields -/
